@@ -266,8 +266,14 @@ class Gen:
         elif r.random() < 0.3:
             # user-given qubit names from a tiny pool: different circuits share names, at the same or at other indices
             arg["names"] = r.sample(["a", "b", "c", "t", "x.0", "x.1", "anc_0"], n)
-        self.add("new", arg, [], {"n": n, "enh": enh})
+        self.add("new", arg, [], {"n": n, "enh": enh, "anc": "anc" in arg})
         return True
+
+    def then_ri(self, e):
+        """a composed enhanced circuit with ancillas: half of the time remove_identities follows at once, which is where
+        the later-uncompute relation is evaluated (what composition did to the bookkeeping shows there)"""
+        if e is not None and e.get("enh") and e.get("anc") and self.r.random() < 0.5:
+            self.add("remove_identities", {"target": e["id"]}, [e["id"]])
 
     def b_random(self):
         r = self.r
@@ -314,13 +320,16 @@ class Gen:
         q = r.sample(range(a["n"]), b["n"])
         self.add("append_circuit", {"target": a["id"], "other": b["id"], "qubits": q}, [a["id"], b["id"]])
         self.last_pair = (a["id"], b["id"])
+        self.then_ri(a)
         return True
 
     def b_add(self):
         a, b = self.two()
         if a is None or b is None:
             return False
-        self.add("add", {"target": a["id"], "other": b["id"]}, [a["id"], b["id"]], {"n": a["n"], "enh": a["enh"]})
+        res = {"n": a["n"], "enh": a["enh"], "anc": a.get("anc")}
+        self.add("add", {"target": a["id"], "other": b["id"]}, [a["id"], b["id"]], res)
+        self.then_ri(res)
         return True
 
     def b_iadd(self):
@@ -329,6 +338,7 @@ class Gen:
             return False
         self.add("iadd", {"target": a["id"], "other": b["id"]}, [a["id"], b["id"]])
         self.last_pair = (a["id"], b["id"])
+        self.then_ri(a)
         return True
 
     def b_iadd_gate(self):
@@ -357,7 +367,9 @@ class Gen:
         a = self.pick()
         if a is None:
             return False
-        self.add("repeat", {"target": a["id"], "n": self.r.choice([1, 2, 2, 3, 3, 4, 5, 6])}, [a["id"]], {"n": a["n"], "enh": a["enh"]})
+        res = {"n": a["n"], "enh": a["enh"], "anc": a.get("anc")}
+        self.add("repeat", {"target": a["id"], "n": self.r.choice([1, 2, 2, 3, 3, 4, 5, 6])}, [a["id"]], res)
+        self.then_ri(res)
         return True
 
     def b_copy(self):
@@ -365,7 +377,7 @@ class Gen:
         if a is None:
             return False
         van = self.r.random() < 0.3
-        self.add("copy", {"target": a["id"], "vanilla": van}, [a["id"]], {"n": a["n"], "enh": a["enh"] and not van})
+        self.add("copy", {"target": a["id"], "vanilla": van}, [a["id"]], {"n": a["n"], "enh": a["enh"] and not van, "anc": a.get("anc") and not van})
         return True
 
     def b_gate(self):
